@@ -37,8 +37,17 @@ pub trait DataInput {
 
     /// Read a vector of bytes with the specified length
     fn read_vec(&mut self, len: usize) -> Result<Vec<u8>> {
-        let mut buf = vec![0u8; len];
-        self.read_bytes(&mut buf)?;
+        // `len` usually comes from a length prefix in the input itself.  Grow the buffer
+        // only as fast as data actually arrives, so a corrupted prefix ends in a read error
+        // instead of a huge up-front allocation.
+        const CHUNK: usize = 64 * 1024;
+        let mut buf = Vec::with_capacity(len.min(CHUNK));
+        while buf.len() < len {
+            let start = buf.len();
+            let step = (len - start).min(CHUNK);
+            buf.resize(start + step, 0);
+            self.read_bytes(&mut buf[start..])?;
+        }
         Ok(buf)
     }
 
@@ -159,6 +168,16 @@ impl<'a> DataInput for SliceDataInput<'a> {
         buf.copy_from_slice(&self.data[self.position..self.position + buf.len()]);
         self.position += buf.len();
         Ok(())
+    }
+
+    fn read_vec(&mut self, len: usize) -> Result<Vec<u8>> {
+        // the remaining length is known: refuse before allocating, consume nothing on error
+        if len > self.data.len().saturating_sub(self.position) {
+            return Err(ZiporaError::io_error("Unexpected end of data"));
+        }
+        let buf = self.data[self.position..self.position + len].to_vec();
+        self.position += len;
+        Ok(buf)
     }
 
     fn skip(&mut self, n: usize) -> Result<()> {
@@ -383,6 +402,16 @@ impl DataInput for MmapDataInput {
         buf.copy_from_slice(&self.mmap[self.position..self.position + buf.len()]);
         self.position += buf.len();
         Ok(())
+    }
+
+    fn read_vec(&mut self, len: usize) -> Result<Vec<u8>> {
+        // the remaining length is known: refuse before allocating, consume nothing on error
+        if len > self.mmap.len().saturating_sub(self.position) {
+            return Err(ZiporaError::io_error("Unexpected end of data"));
+        }
+        let buf = self.mmap[self.position..self.position + len].to_vec();
+        self.position += len;
+        Ok(buf)
     }
 
     fn skip(&mut self, n: usize) -> Result<()> {
